@@ -452,14 +452,9 @@ pub fn run_c18(ctx: &Ctx, sink: &mut Sink) {
                         words.push(String::from_utf8(nm.clone()).unwrap());
                     }
                 }
-                // order below a -H link root under -depth is C03's known finding, not this property
-                let (toks, expr) = if words.iter().any(|w| w == "-H") {
-                    let t: Vec<String> = toks.iter().filter(|t| *t != "depth").cloned().collect();
-                    let e = argv_of(&t, &mut rng);
-                    (t, e)
-                } else {
-                    (toks.clone(), expr.clone())
-                };
+                // (-depth under -H with a link starting point used to be excluded here: a known finding of C03
+                // until /repo c5fa7bc)
+                let (toks, expr) = (toks.clone(), expr.clone());
                 let mut args = words.clone();
                 args.extend(expr.clone());
                 let o = if ci == 4 { find_binary(&ctx.bin("find"), &args, Some(&sc.dir)) } else { find_inproc(&ctx.tmp.join("stderr-find"), &args, std::time::SystemTime::now(), Some(&sc.dir)) };
@@ -507,13 +502,7 @@ pub fn run_c18(ctx: &Ctx, sink: &mut Sink) {
                     None
                 };
                 let flag = *rng.pick(&["P", "H", "L"]);
-                let (toks, expr) = if flag == "H" {
-                    let t: Vec<String> = toks.iter().filter(|t| *t != "depth").cloned().collect();
-                    let e = argv_of(&t, &mut rng);
-                    (t, e)
-                } else {
-                    (toks.clone(), expr.clone())
-                };
+                let (toks, expr) = (toks.clone(), expr.clone());
                 let mut args: Vec<String> = vec![];
                 if flag != "P" { args.push(format!("-{flag}")); }
                 args.push("-files0-from".into());
